@@ -4,7 +4,7 @@
    in exact real arithmetic (floating-point rounding is not modelled). *)
 From Coq Require Import Reals.
 From Coquelicot Require Import Coquelicot.
-From NIR Require Import Gen.LifFormulas Proofs.LifProofs.
+From NIR Require Import Gen.LifFormulas Proofs.LifProofs Model.EventLoop Proofs.EventLoopProofs.
 Open Scope R_scope.
 
 (* advancing by zero time is the identity *)
@@ -55,10 +55,62 @@ Theorem c20_record_step_partial : forall tau r v_leak thr, 0 < tau -> forall v i
   exists t', next_spike tau r v_leak thr (advance tau r v_leak thr v i a) i = Some t' /\ a + t' = t.
 Proof. exact spike_shift. Qed.
 
-(* the full loop-level statement, kept visible: for every schedule of input changes, the spike list
-   restricted to [0, duration] and the voltage at every common record time do not depend on
-   record_dt.  It is not proved here (the event loop is not modelled); the harness checks it on the
-   real code for sampled schedules. *)
+(* RECORDING-INTERVAL INDEPENDENCE at loop level, for the model of run_event_based_simulation (Model/EventLoop.v, tied to
+   the code by exact event-by-event correspondence) and ANY neuron whose operations satisfy the flow laws L0 (zero step),
+   L1 (semigroup), L2 (predicted spike times are not in the past) — the laws c20_zero / c20_semigroup / c20_spike_time
+   establish for the translated LIF formulas.  Schedule sorted and non-negative, both intervals positive:
+   the spike lists restricted to [0, duration] agree, and voltages recorded at a common time agree. *)
+Theorem c20_spikes_independent_of_record_dt :
+  forall (V : Type) (advance : V -> Q -> Q -> V) (next_spike : V -> Q -> option Q) (reset : V -> V) (volt : V -> Q)
+         (veq : V -> V -> Prop),
+    (forall v, veq v v) -> (forall v w, veq v w -> veq w v) -> (forall v w x, veq v w -> veq w x -> veq v x) ->
+    (forall v v' i i' a a', veq v v' -> (i == i')%Q -> (a == a')%Q -> veq (advance v i a) (advance v' i' a')) ->
+    (forall v v', veq v v' -> veq (reset v) (reset v')) ->
+    (forall v v', veq v v' -> (volt v == volt v')%Q) ->
+    (forall v v' i i', veq v v' -> (i == i')%Q -> oeq (next_spike v i) (next_spike v' i')) ->
+    (forall v i, veq (advance v i 0%Q) v) ->
+    (forall v i a b, (0 <= a)%Q -> (0 <= b)%Q -> veq (advance (advance v i a) i b) (advance v i (a + b)%Q)) ->
+    (forall v i t, next_spike v i = Some t -> (0 <= t)%Q) ->
+    forall (n0 : V) (times amps : list Q),
+    (forall a, nth_error times 0 = Some a -> (0 <= a)%Q) ->
+    (forall i a b, nth_error times i = Some a -> nth_error times (S i) = Some b -> (a <= b)%Q) ->
+    forall fuel1 fuel2 r1 r2 d volts1 spikes1 volts2 spikes2,
+    (0 < r1)%Q -> (0 < r2)%Q ->
+    simulate V advance next_spike reset volt fuel1 n0 times amps r1 d = Some (volts1, spikes1) ->
+    simulate V advance next_spike reset volt fuel2 n0 times amps r2 d = Some (volts2, spikes2) ->
+    Forall2 Qeq (filter (fun t => Qle_bool t d) spikes1) (filter (fun t => Qle_bool t d) spikes2).
+Proof. exact C20_spikes. Qed.
+
+Theorem c20_voltages_independent_of_record_dt :
+  forall (V : Type) (advance : V -> Q -> Q -> V) (next_spike : V -> Q -> option Q) (reset : V -> V) (volt : V -> Q)
+         (veq : V -> V -> Prop),
+    (forall v, veq v v) -> (forall v w, veq v w -> veq w v) -> (forall v w x, veq v w -> veq w x -> veq v x) ->
+    (forall v v' i i' a a', veq v v' -> (i == i')%Q -> (a == a')%Q -> veq (advance v i a) (advance v' i' a')) ->
+    (forall v v', veq v v' -> veq (reset v) (reset v')) ->
+    (forall v v', veq v v' -> (volt v == volt v')%Q) ->
+    (forall v v' i i', veq v v' -> (i == i')%Q -> oeq (next_spike v i) (next_spike v' i')) ->
+    (forall v i, veq (advance v i 0%Q) v) ->
+    (forall v i a b, (0 <= a)%Q -> (0 <= b)%Q -> veq (advance (advance v i a) i b) (advance v i (a + b)%Q)) ->
+    (forall v i t, next_spike v i = Some t -> (0 <= t)%Q) ->
+    forall (n0 : V) (times amps : list Q),
+    (forall a, nth_error times 0 = Some a -> (0 <= a)%Q) ->
+    (forall i a b, nth_error times i = Some a -> nth_error times (S i) = Some b -> (a <= b)%Q) ->
+    forall fuel1 fuel2 r1 r2 d volts1 spikes1 volts2 spikes2 tau1 x1 tau2 x2,
+    (0 < r1)%Q -> (0 < r2)%Q ->
+    simulate V advance next_spike reset volt fuel1 n0 times amps r1 d = Some (volts1, spikes1) ->
+    simulate V advance next_spike reset volt fuel2 n0 times amps r2 d = Some (volts2, spikes2) ->
+    In (tau1, x1) volts1 -> In (tau2, x2) volts2 -> (tau1 == tau2)%Q -> (x1 == x2)%Q.
+Proof. exact C20_volts. Qed.
+
+(* the laws are satisfiable: the integrate-and-fire instance the correspondence runs the real loop on *)
+Theorem c20_laws_hold_for_if_neuron :
+  (forall v i, if_veq (if_advance v i 0%Q) v) /\
+  (forall v i a b, (0 <= a)%Q -> (0 <= b)%Q -> if_veq (if_advance (if_advance v i a) i b) (if_advance v i (a + b)%Q)) /\
+  (forall v i t, if_next v i = Some t -> (0 <= t)%Q).
+Proof. split; [exact if_L0|split; [exact if_L1|exact if_L2]]. Qed.
+
+(* (the translated LIF formulas live over R, the loop model over Q: the instantiation of the generic theorem with the
+   real-valued LIF neuron is not carried out — the laws it needs are c20_zero, c20_semigroup and c20_spike_time above) *)
 
 (* the numpy CubaLIF reference model performs exactly the forward-Euler update of
      tau_syn dI/dt = -I + w_in S ,  tau_mem dv/dt = (v_leak - v) + R I
@@ -84,3 +136,6 @@ Print Assumptions c20_no_spike.
 Print Assumptions c20_reset.
 Print Assumptions c20_record_step_partial.
 Print Assumptions c20_cuba_euler.
+Print Assumptions c20_spikes_independent_of_record_dt.
+Print Assumptions c20_voltages_independent_of_record_dt.
+Print Assumptions c20_laws_hold_for_if_neuron.
